@@ -3,6 +3,9 @@
 package main
 
 import (
+	"fmt"
+	"strconv"
+	"syscall"
 	"bytes"
 	"context"
 	"io/fs"
@@ -99,6 +102,9 @@ func handleMore(toks []string) (string, bool) {
 
 type jailT struct {
 	base, dir, prevwd string
+	modes             bool // snapshots carry permission bits (switched on by a pre-state entry "u:<umask>")
+	oldUmask          int
+	umaskSet          bool
 }
 
 var jail *jailT
@@ -126,7 +132,17 @@ func jailLeave() {
 	if jail == nil {
 		return
 	}
+	if jail.umaskSet {
+		syscall.Umask(jail.oldUmask)
+	}
 	os.Chdir(jail.prevwd)
+	// directories made unwritable by a case must not keep the jail alive
+	filepath.WalkDir(jail.base, func(p string, d fs.DirEntry, err error) error {
+		if err == nil && d.IsDir() {
+			os.Chmod(p, 0o755)
+		}
+		return nil
+	})
 	os.RemoveAll(jail.base)
 	jail = nil
 }
@@ -141,15 +157,21 @@ func snapshot() string {
 		if rel == "." || rel == ".." || rel == "../.." || rel == "../../.." {
 			return nil
 		}
+		mode := ""
+		if jail.modes {
+			if info, e := d.Info(); e == nil {
+				mode = fmt.Sprintf("%03o", info.Mode().Perm())
+			}
+		}
 		switch {
 		case d.IsDir():
-			ents = append(ents, "d:"+hx(rel))
+			ents = append(ents, "d"+mode+":"+hx(rel))
 		default:
 			info, e := d.Info()
 			if e == nil && info.Size() == 0 && info.Mode().IsRegular() {
-				ents = append(ents, "e:"+hx(rel))
+				ents = append(ents, "e"+mode+":"+hx(rel))
 			} else {
-				ents = append(ents, "f:"+hx(rel))
+				ents = append(ents, "f"+mode+":"+hx(rel))
 			}
 		}
 		return nil
@@ -190,6 +212,25 @@ func histMore(f []string, node func(string) *gtree.Node, massive bool) (string, 
 				p := unhex(kv[1])
 				if abs := filepath.Join(jail.dir, p); filepath.IsAbs(p) || !strings.HasPrefix(abs, jail.base+string(filepath.Separator)) {
 					// the pre-state is built by the harness itself: never outside its private scratch directory
+					continue
+				}
+				if kv[0] == "u" {
+					// u:<hex of an octal umask> : the process umask for this jail; snapshots then carry permission bits
+					n, _ := strconv.ParseInt(unhex(kv[1]), 8, 32)
+					old := syscall.Umask(int(n))
+					if !jail.umaskSet {
+						jail.oldUmask, jail.umaskSet = old, true
+					}
+					jail.modes = true
+					continue
+				}
+				if strings.HasPrefix(kv[0], "dm") {
+					// dm<octal>:<hex path> : a directory with these permission bits
+					if abs := filepath.Join(jail.dir, p); strings.HasPrefix(abs, jail.base+string(filepath.Separator)) {
+						m, _ := strconv.ParseInt(kv[0][2:], 8, 32)
+						os.MkdirAll(p, 0o755)
+						os.Chmod(p, os.FileMode(m))
+					}
 					continue
 				}
 				if strings.HasPrefix(kv[0], "l") {
@@ -252,9 +293,9 @@ func histMore(f []string, node func(string) *gtree.Node, massive bool) (string, 
 			opts = append(opts, mopt...)
 			opts = append(opts, encOpt(f, 9)...)
 			if f[0] == "m" {
-				err = gtree.MkdirFromMarkdown(strings.NewReader(unhex(f[8])), opts...)
+				err = gtree.MkdirFromMarkdown(mkReader(unhex(f[8])), opts...)
 			} else {
-				err = gtree.Mkdir(strings.NewReader(unhex(f[8])), opts...)
+				err = gtree.Mkdir(mkReader(unhex(f[8])), opts...)
 			}
 		}
 		color.Output = saved
@@ -289,9 +330,9 @@ func histMore(f []string, node func(string) *gtree.Node, massive bool) (string, 
 			opts = append(opts, mopt...)
 			opts = append(opts, encOpt(f, 4)...)
 			if f[0] == "v" {
-				err = gtree.VerifyFromMarkdown(strings.NewReader(unhex(f[3])), opts...)
+				err = gtree.VerifyFromMarkdown(mkReader(unhex(f[3])), opts...)
 			} else {
-				err = gtree.Verify(strings.NewReader(unhex(f[3])), opts...)
+				err = gtree.Verify(mkReader(unhex(f[3])), opts...)
 			}
 		}
 		return classify(err, -1) + " - " + snapshot(), true
